@@ -66,6 +66,28 @@ CLAIMED.update({
             "the closure of multiplication_like_operation receives exactly row i and column j; None is never unwrapped; error decisions in the documented order.",
             TB + " Stated for element types that occupy memory (esL, esR > 0). Operands passed by reference are unchanged because the operator forms clone them (observed by the harness).", "DESIGN §7 C11"),
 })
+CLAIMED.update({
+    'C16': ("Rocq theorems over an abstract schedule (split tree) model of rayon's indexed producers + differential correspondence under real thread pools",
+            "PARTIAL. Proved: under every binary split tree of the index range and every execution order of its pieces, map/enumerate/collect yield the sequential result and the closure is invoked exactly once per "
+            "element; the history machine therefore gives the parallel helpers the meaning (and the same check_size decision) of their sequential counterparts. Validated with real pools of 1..32 threads, sizes 0..50000, "
+            "delay patterns perturbing splitting/stealing, and zero-sized/sized source-target size grids for CapacityOverflow.",
+            TB + " That rayon implements the split-tree contract, its memory ordering and its panic propagation cannot be exhibited by the model.", "DESIGN §7 C16"),
+    'C17': ("Rocq theorems over a modelled auto-trait table and a disjoint-update store + rustc's own verdicts and multi-threaded runs",
+            "PARTIAL. Proved: with the explicit bounded impls of iter_mut.rs the two iterators are Send iff T: Send and Sync iff T: Sync (and neither without them); positions of distinct logical coordinates are distinct; "
+            "for any number of threads updating pairwise disjoint address sets every global execution order gives the sequential store. Each run lets rustc decide Send/Sync for 6 iterator types x 4 element classes "
+            "while compiling the harness against the current tree and compares with the model's table, and deals rows/columns to 1..16 threads checking per-thread address sets.",
+            TB + " rustc's trait solver and the hardware memory model are outside the model; the table in Model/Traits.v is hand-mirrored from the source (fields and unsafe impls).", "DESIGN §7 C17"),
+    'C18': ("Rocq theorems on the scalar_operation family and the operand-side table + all 1260 compiled impls classified by operand order",
+            "Proved: scalar_operation/_consume_self/_assign keep shape and order and apply the closure once per element with the scalar second; a form computes (element op scalar) when the matrix is on the left and "
+            "(scalar op element) when on the right, according to the side table. Each run instantiates 14 types x 5 operators x 18 forms + negation in the harness and classifies every impl by the operand order "
+            "its result matches (witnesses chosen per operator so that - / % distinguish the orders), on several shapes and both orders, against the model's table.",
+            TB + " The side table is hand-mirrored from the macro-generated impl headers, not generated.", "DESIGN §7 C18"),
+    'C19': ("Rocq proofs of the conversion loops and constructors on the list model + differential correspondence",
+            "TryFrom (three impls) returns LengthInconsistent exactly when some row differs in length from the first (after the size/capacity errors), FromIterator panics in the same cases, otherwise the rows in order; "
+            "from arrays/rows: logical row i is the i-th given row; with_value fills the shape; with_initializer calls its closure once per position and stores each value where it was called. "
+            "Validated on row counts 0..4 x lengths 0..4 with the odd row at every position, length-coincidence cases, every macro arm.",
+            TB, "DESIGN §7 C19"),
+})
 NOT_APPLICABLE = {}
-for _p in ['C01', 'C02', 'C03', 'C16', 'C17', 'C18', 'C19', 'C20']:
+for _p in ['C01', 'C02', 'C03', 'C20']:
     NOT_APPLICABLE[_p] = "not claimed yet: the check for this property is still being built in this round (the technique applies; see DESIGN.md §7)"
